@@ -6,7 +6,8 @@
 (* A transformation with known eigen-data is T = F D F^-1 (acting on        *)
 (* COLUMN vectors) with D diagonal with distinct non-zero integer           *)
 (* eigenvalues and F unimodular: the k-th column of F is, exactly, the      *)
-(* eigenvector of the eigenvalue D[k], and F is a diagonalising frame.      *)
+(* eigenvector of the eigenvalue D[k], and F is a diagonalising frame.  A   *)
+(* third spectrum has repeated eigenvalues (eigenspaces of dimension 2).    *)
 (* The state machine walks F through SL(M,Z) by elementary shears, keeping  *)
 (* F^-1 alongside; TLC checks in every state F F^-1 = 1, T f_k = D[k] f_k,  *)
 (* F^-1 T F = D and tr T = sum of the eigenvalues.                          *)
@@ -18,9 +19,12 @@ CONSTANTS M,        \* size of the matrices (projective dimension M - 1)
 
 VARIABLES F, Finv, sp, len
 
-Spectra == << <<2, 0 - 1, 3, 0 - 3, 5, 7>>, <<1, 0 - 2, 4, 3, 0 - 5, 6>> >>
+\* two spectra with distinct eigenvalues (some sharing a modulus) and one with REPEATED eigenvalues: there the
+\* columns of F with the same eigenvalue span the eigenspace, and any vector of it is an eigenvector
+Spectra == << <<2, 0 - 1, 3, 0 - 3, 5, 7>>, <<1, 0 - 2, 4, 3, 0 - 5, 6>>, <<2, 2, 1, 3, 3, 0 - 1>> >>
 Ev(s) == SubSeq(Spectra[s], 1, M)
-ASSUME \A s \in 1..Len(Spectra) : \A a, b \in 1..M : Ev(s)[a] # 0 /\ (a # b => Ev(s)[a] # Ev(s)[b])
+ASSUME \A s \in 1..Len(Spectra) : \A a \in 1..M : Ev(s)[a] # 0
+ASSUME \A s \in 1..2 : \A a, b \in 1..M : a # b => Ev(s)[a] # Ev(s)[b]
 
 Diag(e) == [r \in 1..M |-> [c \in 1..M |-> IF r = c THEN e[r] ELSE 0]]
 Elem(i, j, s) == [r \in 1..M |-> [c \in 1..M |-> IF r = c THEN 1 ELSE IF r = i /\ c = j THEN s ELSE 0]]
